@@ -113,6 +113,14 @@ def inline_aliases_in(fn: ast.AST, unknown: Set[str]) -> int:
                 cands.setdefault(t.id, []).append((b, st, st.value))
             elif isinstance(t, ast.Name) and t.id in unknown and _cond_alias(st.value):
                 cands.setdefault(t.id, []).append((b, st, st.value))
+            elif isinstance(t, ast.Tuple) and isinstance(st.value, ast.Tuple) and len(t.elts) == len(st.value.elts) \
+                    and all(isinstance(e, ast.Name) for e in t.elts):
+                # element-wise: `a, b = (x.y, True)`
+                tn = {e.id for e in t.elts}
+                for e, v in zip(t.elts, st.value.elts):
+                    cv = _chain(v, plain=isinstance(v, ast.Name))
+                    if e.id in unknown and (cv or isinstance(v, ast.Constant)) and not (cv and cv[0] in tn):
+                        cands.setdefault(e.id, []).append((b, st, v))
             elif isinstance(t, ast.Tuple) and all(isinstance(e, ast.Name) for e in t.elts) and (ch or isinstance(st.value, ast.Name)):
                 base = ch[0] if ch else st.value.id
                 if any(e.id == base for e in t.elts):
@@ -133,7 +141,8 @@ def inline_aliases_in(fn: ast.AST, unknown: Set[str]) -> int:
         ok = True
         for b, st, repl in lst:
             ca = _cond_alias(repl)
-            ch = _chain(ca[1] if ca else repl, plain=True) or (repl.id if isinstance(repl, ast.Name) else None, set())
+            ch = (None, set()) if isinstance(repl, ast.Constant) else \
+                (_chain(ca[1] if ca else repl, plain=True) or (repl.id if isinstance(repl, ast.Name) else None, set()))
             base, attrs = ch
             cond_names = {x.id for x in ast.walk(ca[0]) if isinstance(x, ast.Name)} if ca else set()
             i = next(k for k, s in enumerate(b) if s is st)
